@@ -384,8 +384,9 @@ def write_evidence(r, status):
         "wall_s": round(time.time() - r.t0, 2),
         "violations": len(r.violations),
     }
-    os.makedirs(os.path.join(ROOT, "evidence"), exist_ok=True)
-    with open(os.path.join(ROOT, "evidence", r.prop + ".json"), "w") as f:
+    evdir = os.environ.get("VERIF_EVID_DIR") or os.path.join(ROOT, "evidence")
+    os.makedirs(evdir, exist_ok=True)
+    with open(os.path.join(evdir, r.prop + ".json"), "w") as f:
         json.dump(ev, f, indent=1)
 
 
